@@ -89,7 +89,9 @@ class MergeAI:
                         self.cur[side] = s.targets[0].id
         if set(self.cur) != {'left', 'right'}:
             raise AIError('detect_where_sorted: initial next() of both iterators not found')
-        # exhausted flags = names set True in the StopIteration handler of a try whose body advances that side
+        # exhausted flags = names set True in the StopIteration handler of a try whose body advances that side, and tested by the merge loop's condition
+        loops0 = [n for n in node.body if isinstance(n, ast.While)]
+        in_test = {x.id for l0 in loops0 for x in ast.walk(l0.test) if isinstance(x, ast.Name)}
         self.exh = {}
         for tr in [n for n in walk_local(node) if isinstance(n, ast.Try)]:
             side = None
@@ -100,7 +102,8 @@ class MergeAI:
             for h in tr.handlers:
                 if h.type is not None and 'StopIteration' in norm(h.type):
                     for s in h.body:
-                        if isinstance(s, ast.Assign) and isinstance(s.value, ast.Constant) and s.value.value is True and isinstance(s.targets[0], ast.Name) and side:
+                        if isinstance(s, ast.Assign) and isinstance(s.value, ast.Constant) and s.value.value is True and isinstance(s.targets[0], ast.Name) and side \
+                                and s.targets[0].id in in_test:
                             self.exh.setdefault(side, s.targets[0].id)
         if set(self.exh) != {'left', 'right'}:
             raise AIError('detect_where_sorted: exhausted flags not found')
